@@ -22,6 +22,9 @@ import (
 // A:           6 7 ...
 // V: 1 2 3 4 5 6 7 ...
 // 另外，需要考虑音频比base还小的情况
+// mpegtsTimestampMask mpegts中PTS/DTS为33位
+const mpegtsTimestampMask = uint64(1)<<33 - 1
+
 type Rtmp2MpegtsTimestampFilter struct {
 	uk string
 
@@ -45,6 +48,8 @@ func (f *Rtmp2MpegtsTimestampFilter) Do(frame *mpegts.Frame) {
 		}
 		if frame.Dts < f.basicAudioDts {
 			Log.Warnf("[%s] audio dts invalid. dts=%d, base=%d, frame=%s", f.uk, frame.Dts, f.basicAudioDts, frame.DebugString())
+			// 注意，时间戳回退到基准之前时，依然减去基准（按mpegts时间戳的33位回绕），保证整条流的时间戳偏移量是同一个常量
+			frame.Dts = (frame.Dts - f.basicAudioDts) & mpegtsTimestampMask
 		} else {
 			frame.Dts -= f.basicAudioDts
 		}
@@ -55,6 +60,7 @@ func (f *Rtmp2MpegtsTimestampFilter) Do(frame *mpegts.Frame) {
 		}
 		if frame.Dts < f.basicVideoDts {
 			Log.Warnf("[%s] video dts invalid. dts=%d, base=%d, frame=%s", f.uk, frame.Dts, f.basicVideoDts, frame.DebugString())
+			frame.Dts = (frame.Dts - f.basicVideoDts) & mpegtsTimestampMask
 		} else {
 			frame.Dts -= f.basicVideoDts
 		}
